@@ -223,4 +223,19 @@ def checkTK (oc : Bool) (pre impl std : List String) : Option (List String × Bo
   if allocs != 0 then v := "UNSAT C18" :: v
   return (v, ops.length > 1 && limit > 0)
 
+/-- `BW <adapter> <len> <act> | <lengths the inner writer saw> ; <result>`: a payload too long to be logged byte by byte
+    through an adapter's write side.  C13: forwarded exactly once, with the same length, result returned unchanged
+    (the model's `chain_write` / `take_write` say this for every payload; here only lengths are compared) -/
+def checkBW (pre impl : List String) : Option (List String × Bool) := do
+  let (len, act) ← match pre with
+    | [_, l, a] => do pure ((← l.toNat?), (← wact? a))
+    | _ => none
+  let (calls, res) ← match impl with
+    | [c, ";", r] => do pure ((← nums? c), r)
+    | _ => none
+  let want := match act with
+    | .full => s!"ok{len}" | .part k => s!"ok{min k len}" | .zero => "ok0" | .err k => s!"err{k}"
+  let ok := calls == [len] && res == want
+  return ((if ok then [] else ["DRIFT", "DIFF C13", "UNSAT C13"]), true)
+
 end FBV.DrvAD
